@@ -255,6 +255,10 @@ def check(ctx):
     from .c01 import simulator_chain_concrete
     simulator_chain_concrete(ctx.borrowed("R6", "C01"), repo, repo.method("GeckoSimulator", "_on_status_block"))
 
+    ctx.rule("R7", "... to a client unchanged: what both clients install from the served segment chain is the chain's bytes, in order, once - also when a segment is lost and the transfer is asked for again (C01's install / append / fresh-assembly obligations on both structure classes borrowed)")
+    from . import c01 as _c01
+    _c01.sync_assembly(ctx.borrowed("R7", "C01", only=("R1", "R2", "R4")), repo)
+    _c01.async_assembly(ctx.borrowed("R7", "C01", only=("R1", "R2", "R3", "R4")), repo)
     snap_init = repo.method("GeckoSnapshot", "__init__")
     funcs = None
     for n in ast.walk(snap_init.node):
